@@ -110,7 +110,24 @@ func ParseCCLines(lines []string) CC {
 			continue
 		}
 		if cc.Has[name] {
-			continue // first occurrence wins
+			// A repeated directive: the first occurrence is used (RFC 9111 §4.2.1) - except
+			// that an argument-less no-cache is never narrowed by a qualified one beside it.
+			if name == "no-cache" {
+				members := 0
+				if hasArg {
+					v, _ := unquote(trimOWS(arg))
+					for _, f := range splitList(v) {
+						if trimOWS(f) != "" {
+							members++
+						}
+					}
+				}
+				if members == 0 {
+					delete(cc.Arg, name)
+					delete(cc.Quoted, name)
+				}
+			}
+			continue
 		}
 		cc.Has[name] = true
 		if hasArg {
